@@ -145,8 +145,15 @@ type run struct {
 	proofs   []map[string][][]byte // per snap: key -> proof
 	reported map[string]bool
 	nfail    map[string]int
+	outcomes map[string]struct{}
+	loc      struct{ finds, seeks, storeSeeks, gets, proofsOK, proofsRefused, crossProofs, histInv, histInvHalt int }
 	viol     []*caseRec
 }
+
+// out notes an outcome class seen in this history run (flushed once per run:
+// the evidence counts runs exhibiting the class, and the shared counter is not
+// hammered from the inner loops).
+func (c *run) out(class string) { c.outcomes[class] = struct{}{} }
 
 // fail records a violation; at most one per (oracle, class) and history run.
 func (c *run) fail(oracle, class string, s *snap, call, got, want string) {
@@ -178,7 +185,7 @@ func (cx *ctx) runHistory(sc *chainx.Scenario, fam famSpec, v nodeVariant, h []i
 		return nil, err
 	}
 	defer n.Close()
-	c := &run{cx: cx, fam: fam, v: v, names: sc.Names(h), n: n, w: sc.World.Attach(n), reported: map[string]bool{}, nfail: map[string]int{}}
+	c := &run{cx: cx, fam: fam, v: v, names: sc.Names(h), n: n, w: sc.World.Attach(n), reported: map[string]bool{}, nfail: map[string]int{}, outcomes: map[string]struct{}{}}
 	c.sm, c.mod = module(n)
 	if c.mod == nil {
 		return nil, fmt.Errorf("state module is not *stateroot.Module")
@@ -250,6 +257,18 @@ func (cx *ctx) runHistory(sc *chainx.Scenario, fam famSpec, v nodeVariant, h []i
 		}
 	}
 	c.evaluate()
+	for o := range c.outcomes {
+		cx.r.Outcome(o)
+	}
+	cx.c.finds.Add(c.loc.finds)
+	cx.c.seeks.Add(c.loc.seeks)
+	cx.c.storeSeeks.Add(c.loc.storeSeeks)
+	cx.c.gets.Add(c.loc.gets)
+	cx.c.proofsOK.Add(c.loc.proofsOK)
+	cx.c.proofsRefused.Add(c.loc.proofsRefused)
+	cx.c.crossProofs.Add(c.loc.crossProofs)
+	cx.c.histInv.Add(c.loc.histInv)
+	cx.c.histInvHalt.Add(c.loc.histInvHalt)
 	return c.viol, nil
 }
 
@@ -391,24 +410,24 @@ func (c *run) find(s *snap, prefix, start []byte, max int, retained bool) {
 		got []storage.KeyValue
 		err error
 	)
-	c.cx.c.finds.Inc()
+	c.loc.finds++
 	pan := guard(func() { got, err = c.sm.FindStates(s.Root, prefix, start, max) })
 	call := fmt.Sprintf("FindStates(prefix=%x,start=%s,max=%d)", prefix, startName(start), max)
 	if pan != nil {
 		if retained {
 			c.fail("O1-find", startClass(start), s, call, fmt.Sprintf("panic: %v", pan), kvsString(want))
 		} else {
-			c.cx.r.Outcome("nonretained:find:panic")
+			c.out("nonretained:find:panic")
 		}
 		return
 	}
 	if err != nil {
 		if !retained {
-			c.cx.r.Outcome("nonretained:find:error")
+			c.out("nonretained:find:error")
 			return
 		}
 		if isNotFound(err) && len(want) == 0 {
-			c.cx.r.Outcome("find:empty->ErrNotFound")
+			c.out("find:empty->ErrNotFound")
 			return
 		}
 		c.fail("O1-find", startClass(start), s, call, "error: "+err.Error(), kvsString(want))
@@ -419,9 +438,9 @@ func (c *run) find(s *snap, prefix, start []byte, max int, retained bool) {
 		return
 	}
 	if !retained {
-		c.cx.r.Outcome("nonretained:find:equal")
+		c.out("nonretained:find:equal")
 	} else if len(want) == 0 {
-		c.cx.r.Outcome("find:empty->no-error")
+		c.out("find:empty->no-error")
 	}
 }
 
@@ -436,7 +455,7 @@ func (c *run) seek(s *snap, prefix []byte, stop int, retained bool) {
 		want[i].K = want[i].K[len(prefix):]
 	}
 	var got []kv
-	c.cx.c.seeks.Inc()
+	c.loc.seeks++
 	pan := guard(func() {
 		c.sm.SeekStates(s.Root, prefix, func(k, v []byte) bool {
 			got = append(got, kv{string(k), string(v)})
@@ -452,11 +471,11 @@ func (c *run) seek(s *snap, prefix []byte, stop int, retained bool) {
 		}
 		switch {
 		case pan != nil:
-			c.cx.r.Outcome("nonretained:seek:panic")
+			c.out("nonretained:seek:panic")
 		case len(got) < len(want):
-			c.cx.r.Outcome("nonretained:seek:short")
+			c.out("nonretained:seek:short")
 		default:
-			c.cx.r.Outcome("nonretained:seek:equal")
+			c.out("nonretained:seek:equal")
 		}
 		return
 	}
@@ -473,7 +492,7 @@ func (c *run) seek(s *snap, prefix []byte, stop int, retained bool) {
 func (c *run) storeSeek(s *snap, ts *mpt.TrieStore, prefix, start []byte, backwards bool) {
 	want := s.expectSeek(prefix, start, backwards)
 	var got []kv
-	c.cx.c.storeSeeks.Inc()
+	c.loc.storeSeeks++
 	pfx := append([]byte{byte(storage.STStorage)}, prefix...)
 	pan := guard(func() {
 		ts.Seek(storage.SeekRange{Prefix: pfx, Start: start, Backwards: backwards}, func(k, v []byte) bool {
@@ -562,7 +581,7 @@ func valStr(v string, ok bool) string {
 
 // verifyMust: a proof may fail to verify or verify to exactly what map_h holds.
 func (c *run) verifyMust(s *snap, k string, proof [][]byte, what string) (ok bool) {
-	c.cx.c.crossProofs.Inc()
+	c.loc.crossProofs++
 	var (
 		val []byte
 		res bool
@@ -596,7 +615,7 @@ func (c *run) points(idx int, s *snap, retained bool) {
 			val []byte
 			err error
 		)
-		c.cx.c.gets.Inc()
+		c.loc.gets++
 		pan := guard(func() { val, err = c.sm.GetState(s.Root, []byte(k)) })
 		call := fmt.Sprintf("GetState(key=%x)", k)
 		switch {
@@ -604,19 +623,19 @@ func (c *run) points(idx int, s *snap, retained bool) {
 			if retained {
 				c.fail("O2-get", "-", s, call, fmt.Sprintf("panic: %v", pan), valStr(want, present))
 			} else {
-				c.cx.r.Outcome("nonretained:get:panic")
+				c.out("nonretained:get:panic")
 			}
 		case err != nil:
 			if retained && (present || !isNotFound(err)) {
 				c.fail("O2-get", "-", s, call, "error: "+err.Error(), valStr(want, present))
 			} else if !retained {
-				c.cx.r.Outcome("nonretained:get:error")
+				c.out("nonretained:get:error")
 			}
 		default:
 			if !present || string(val) != want {
 				c.fail("O2-get", "-", s, call, valStr(string(val), true), valStr(want, present))
 			} else if !retained {
-				c.cx.r.Outcome("nonretained:get:equal")
+				c.out("nonretained:get:equal")
 			}
 		}
 		// O3
@@ -628,16 +647,16 @@ func (c *run) points(idx int, s *snap, retained bool) {
 			if retained {
 				c.fail("O3-proof", "-", s, call, fmt.Sprintf("panic: %v", pan), valStr(want, present))
 			} else {
-				c.cx.r.Outcome("nonretained:proof:panic")
+				c.out("nonretained:proof:panic")
 			}
 		case err != nil:
 			if retained && (present || !isNotFound(err)) {
 				c.fail("O3-proof", "-", s, call, "error: "+err.Error(), valStr(want, present))
 			} else if !retained {
-				c.cx.r.Outcome("nonretained:proof:error")
+				c.out("nonretained:proof:error")
 			}
 			if !present {
-				c.cx.c.proofsRefused.Inc()
+				c.loc.proofsRefused++
 				// whatever partial path came back must not verify for the absent key
 				c.verifyMust(s, k, proof, "partial path returned with the error")
 			}
@@ -651,7 +670,7 @@ func (c *run) points(idx int, s *snap, retained bool) {
 				c.fail("O3-verify", "-", s, fmt.Sprintf("VerifyProof(key=%x,own proof)", k), "does not verify", valStr(want, true))
 				break
 			}
-			c.cx.c.proofsOK.Inc()
+			c.loc.proofsOK++
 			c.proofs[idx][k] = proof
 			// the proof of k fed for other keys
 			for _, o := range probes(k, other) {
@@ -725,29 +744,29 @@ func (c *run) historic(s *snap, retained bool) {
 				c.fail("O4-historic-panic", msg[:min(len(msg), 60)], s, call, "panic: "+msg, q.Res)
 				return // the same panic for every script of this height
 			} else {
-				c.cx.r.Outcome("nonretained:historic:panic")
+				c.out("nonretained:historic:panic")
 			}
 		case err != nil:
 			switch {
 			case c.v.Latest:
-				c.cx.r.Outcome("historic:unsupported-with-KeepOnlyLatestState")
+				c.out("historic:unsupported-with-KeepOnlyLatestState")
 			case retained:
 				c.fail("O4-historic", q.Name, s, call, "error: "+err.Error(), q.Res)
 			default:
-				c.cx.r.Outcome("nonretained:historic:refused")
+				c.out("nonretained:historic:refused")
 			}
 		case res == q.Res:
-			c.cx.c.histInv.Inc()
+			c.loc.histInv++
 			if halt {
-				c.cx.c.histInvHalt.Inc()
+				c.loc.histInvHalt++
 			}
 			if !retained {
-				c.cx.r.Outcome("nonretained:historic:equal")
+				c.out("nonretained:historic:equal")
 			}
 		default:
 			if !retained && !halt {
 				// the invocation visibly failed on a state that is not kept
-				c.cx.r.Outcome("nonretained:historic:fault")
+				c.out("nonretained:historic:fault")
 				continue
 			}
 			o := "O4-historic"
